@@ -512,7 +512,10 @@ fn parse_token(
                     Some(group_index) => group_index == left_index,
                 };
 
-                let stop = my_priority < their_priority || my_priority == their_priority && right_to_left;
+                // a suffix operator is complete: whatever follows takes it, or something above it, as its left
+                // operand and never nests under it
+                let stop = (my_priority < their_priority || my_priority == their_priority && right_to_left)
+                    && n.secondary_definition != SecondaryDefinition::UnarySuffix;
 
                 // need to find node with higher priority and stop before it
                 if stop || is_our_group {
